@@ -588,7 +588,19 @@ fn sweep_for(decoder: &str, base: &[u8]) -> Vec<Vec<LinkFault>> {
         for (i, ch) in text.char_indices() {
             let prev = text[..i].chars().last().unwrap_or(' ');
             if ch.is_ascii_digit() && (prev == ':' || prev == '[' || prev == ',') {
-                for big in ["18446744073709551616", "-9223372036854775809", "1e400", "4294967296.5", "\"99999999999999999999999\""] {
+                for big in [
+                    "18446744073709551616",
+                    "-9223372036854775809",
+                    "1e400",
+                    "4294967296.5",
+                    "\"99999999999999999999999\"",
+                    "\"0e9223372036854775807\"",
+                    "\"1e9223372036854775807\"",
+                    "\"0.0e+4000000000\"",
+                    "\"-0e99999999\"",
+                    "0e999999999",
+                    "\"1e-9223372036854775807\"",
+                ] {
                     out.push(vec![LinkFault::Splice(i as u32, big.as_bytes().to_vec())]);
                 }
             }
